@@ -138,6 +138,9 @@ def _estimate_merged_gradient(
     delta_variables = delta_variables.reshape(-1, delta_variables.shape[-1])
     delta_functions = delta_functions.flatten()
     active_perturbations &= np.logical_not(np.isnan(delta_functions))
+    if not np.any(active_perturbations):
+        # All realizations failed, there is nothing to estimate a gradient from:
+        return np.full(delta_variables.shape[-1], np.nan, dtype=np.float64)
     return _invert_linear_equations(
         delta_variables[active_perturbations, :], delta_functions[active_perturbations]
     )
